@@ -912,8 +912,10 @@ func (f *Flooder) cleanup() {
 	// to twice the timestamp window after it was first accepted (stamped up
 	// to one window ahead, valid until one window after its timestamp), so
 	// its entry must be remembered at least that long.
+	// The extra minute covers a handler that is between its timestamp check
+	// and its check-and-mark while this cleanup runs.
 	sleepCmdExpiry := expiry
-	if minExpiry := 2 * f.timestampWindow; sleepCmdExpiry < minExpiry {
+	if minExpiry := 2*f.timestampWindow + time.Minute; sleepCmdExpiry < minExpiry {
 		sleepCmdExpiry = minExpiry
 	}
 	f.sleepCmdMu.Lock()
